@@ -16,7 +16,10 @@ LEVEL_TEXT = ("TLC checks on bounded instances that the operational wrapper spec
               "on real Optional/Any objects living in raw aligned slots for six payload types (trivial, 8-aligned, std::string, "
               "std::vector<int>, alignas(32), lifetime-instrumented) under ASan+UBSan with all wrappers observed after every step; 200-step "
               "random walks over a larger universe (6 wrappers, 3 values) are executed and the recorded observations and payload lifetime "
-              "events are validated by TLC against the trace specification; getEnvVar<T> cases from a functional table")
+              "events are validated by TLC against the trace specification; payload operations that throw (poisoned payload objects: any "
+              "construction or assignment taking their value throws) are part of the model-checked histories, of three further "
+              "generation instances replayed on the instrumented payload and of recorded walks, with has_value() = live payload objects "
+              "checked after every step; getEnvVar<T> cases from a functional table")
 LEVEL_NOTE = ("bounded: exhaustive parts use 3 Optional<T> | 2 Optional<T> + 1 Optional<U> | 2 Any slots with 2 payload values; "
               "observables of a moved-from wrapper and results of comparing / printing wrappers that are not both engaged are unconstrained "
               "(only 'returns normally'); payload lifetime events are observed with the instrumented payload type only (other payloads: "
@@ -37,14 +40,19 @@ INSTANCES = {   # name -> (cfg, (nt, nu, na), signature prefix)
     "Any": ("ValueBoxGenAny.cfg", (0, 0, 2), "Any"),
     "Probe": ("ValueBoxGenProbe.cfg", (1, 0, 0), "Optional"),
     "Full": ("ValueBoxGenFull.cfg", (3, 1, 0), "Optional"),
+    # histories with payload operations that throw (lifetime-instrumented payload only)
+    "ThrowA": ("ValueBoxGenThrowA.cfg", (2, 0, 0), "Optional"),
+    "ThrowB": ("ValueBoxGenThrowB.cfg", (1, 1, 0), "Optional"),
+    "ThrowAny": ("ValueBoxGenThrowAny.cfg", (0, 0, 2), "Any"),
 }
-MUTATORS = {"ValueCtor", "AssignValue", "Emplace", "Mutate", "AnyValueCtor", "AnyAssignValue", "AnySet", "DefaultCtor", "ResetValue",
+THROWING = {"ThrowA", "ThrowB", "ThrowAny"}
+MUTATORS = {"MakeOptional", "Poison", "AnyPoison", "ValueCtor", "AssignValue", "Emplace", "Mutate", "AnyValueCtor", "AnyAssignValue", "AnySet", "DefaultCtor", "ResetValue",
             "AnyDefaultCtor", "Destroy", "AnyDestroy", "MoveCtor", "ConvMoveCtor", "MoveAssign", "ConvMoveAssign", "AnyMoveCtor",
             "AnyMoveAssign", "CopyCtor", "ConvCopyCtor", "CopyAssign", "ConvCopyAssign", "AnyCopyCtor", "AnyCopyAssign"}
 # actions that reach every none/empty/engaged state; shortest paths through them first, so that a defect in a
 # copy / move path does not hide the transitions behind it (path selection only)
 BASIC = {"DefaultCtor", "ValueCtor", "Emplace", "ResetValue", "Destroy", "AnyDefaultCtor", "AnyValueCtor", "AnyAssignValue", "AnyDestroy"}
-REQUIRED_OPT = ["DefaultCtor", "ValueCtor", "CopyCtor", "MoveCtor", "ConvCopyCtor", "ConvMoveCtor", "AssignValue", "CopyAssign", "MoveAssign",
+REQUIRED_OPT = ["MakeOptional", "Poison", "AnyPoison", "DefaultCtor", "ValueCtor", "CopyCtor", "MoveCtor", "ConvCopyCtor", "ConvMoveCtor", "AssignValue", "CopyAssign", "MoveAssign",
                 "ConvCopyAssign", "ConvMoveAssign", "Emplace", "ResetValue", "Destroy", "Mutate", "ValueOr", "Observe", "Compare", "Layout",
                 "PackedUse", "Teardown"]
 REQUIRED_ANY = ["AnyDefaultCtor", "AnyValueCtor", "AnyCopyCtor", "AnyMoveCtor", "AnyAssignValue", "AnyCopyAssign", "AnyMoveAssign",
@@ -57,6 +65,23 @@ REQUIRED_CLS = [("CopyAssign", "src=empty,dst=engaged"), ("CopyAssign", "src=eng
                 ("AnyEquals", "lhs=empty,rhs=engaged"), ("AnyEquals", "lhs=engaged,rhs=engaged"), ("AnyToString", "a=empty"),
                 ("AnyGet", "a=empty"), ("AnyGet", "a=engaged,type=wrong"), ("AnyGet", "a=engaged,type=right"),
                 ("AnyCopyAssign", "src=empty,dst=engaged")]
+# throwing payload operations: value-taking classes (Emplace / AssignValue / constructors from a value) at least MIN_THROW
+# times per run, every other class (they need a poisoned source first) at least MIN_THROW_FROM times
+MIN_THROW = 25
+MIN_THROW_FROM = 25
+REQUIRED_THROW = [("Emplace", "dst=engaged,throws"), ("Emplace", "dst=empty,throws"), ("Emplace", "dst=moved,throws"),
+                  ("AssignValue", "dst=engaged,throws"), ("AssignValue", "dst=empty,throws"), ("AssignValue", "dst=moved,throws"),
+                  ("ValueCtor", "throws"), ("MakeOptional", "throws"), ("ValueOr", "a=engaged,throws"),
+                  ("CopyCtor", "src=engaged,throws"), ("MoveCtor", "src=engaged,throws"),
+                  ("ConvCopyCtor", "src=engaged,throws"), ("ConvMoveCtor", "src=engaged,throws"),
+                  ("CopyAssign", "src=engaged,dst=engaged,throws"), ("CopyAssign", "src=engaged,dst=empty,throws"),
+                  ("MoveAssign", "src=engaged,dst=engaged,throws"), ("MoveAssign", "src=engaged,dst=empty,throws"),
+                  ("ConvCopyAssign", "src=engaged,dst=engaged,throws"), ("ConvCopyAssign", "src=engaged,dst=empty,throws"),
+                  ("ConvMoveAssign", "src=engaged,dst=engaged,throws"), ("ConvMoveAssign", "src=engaged,dst=empty,throws"),
+                  ("AnyValueCtor", "throws"), ("AnyAssignValue", "dst=engaged,throws"), ("AnyAssignValue", "dst=empty,throws"),
+                  ("AnyCopyCtor", "src=engaged,throws"), ("AnyMoveCtor", "src=engaged,throws"),
+                  ("AnyCopyAssign", "src=engaged,dst=engaged,throws"), ("AnyCopyAssign", "src=engaged,dst=empty,throws"),
+                  ("AnyMoveAssign", "src=engaged,dst=engaged,throws")]
 
 FAST_SAN = {"ASAN_OPTIONS": adt.SAN_ENV["ASAN_OPTIONS"] + ":symbolize=0",
             "UBSAN_OPTIONS": "halt_on_error=1:exitcode=96:print_stacktrace=0:symbolize=0"}
@@ -66,12 +91,12 @@ FAST_SAN = {"ASAN_OPTIONS": adt.SAN_ENV["ASAN_OPTIONS"] + ":symbolize=0",
 # format conversion of TLC's steps (no values are computed here)
 # ---------------------------------------------------------------------------
 def _slot(rec, tracked):
-    return rec if tracked else {k: v for k, v in rec.items() if k != "live"}
+    return rec if tracked else {k: v for k, v in rec.items() if k not in ("live", "hl")}
 
 
 def convert_step(step, tracked):
     """For payload types without lifetime instrumentation, drop the observables only the instrumented
-    payload can report (life, live).  (The framework compares the fields of a record in alphabetical order:
+    payload can report (life, live, hl).  (The framework compares the fields of a record in alphabetical order:
     done, dst, life, ret, src, world - the first difference names the finding.)"""
     e = step.get("exp", {})
     out = {}
@@ -138,8 +163,9 @@ def close_with_teardown(ag, hs):
     return out
 
 
-def edge_cover_pref(ag, basic):
-    """One history per transition; the path to the source state prefers `basic` actions."""
+def edge_cover_pref(ag, basic, follow=None):
+    """One history per transition; the path to the source state prefers `basic` actions.  Transitions selected
+    by `follow` are additionally followed by every possible next transition."""
     parent = {}
     dq = deque()
     for s in ag.init:
@@ -170,6 +196,10 @@ def edge_cover_pref(ag, basic):
         base = path_to(s)
         for step, d in ag.edges.get(s, []):
             out.append(base + [step])
+            if follow and follow(step):
+                # ... and this transition followed by every transition of the state it leads to
+                for step2, d2 in ag.edges.get(d, []):
+                    out.append(base + [step, step2])
     if len(parent) != len(ag.states):
         raise tla.InfraError("generation graph has unreachable states")
     return out
@@ -214,7 +244,37 @@ def build_graph(spec_tla, cfg, tag, workers=8, timeout=1500):
     return ag, r
 
 
-def gen_instance(chk, name, budget, walks, walk_len, seed):
+FROM_POISONED = {"CopyCtor", "MoveCtor", "ConvCopyCtor", "ConvMoveCtor", "CopyAssign", "MoveAssign", "ConvCopyAssign", "ConvMoveAssign",
+                 "AnyCopyCtor", "AnyMoveCtor", "AnyCopyAssign", "AnyMoveAssign", "ValueOr"}
+
+
+def throws_from_poisoned(step):
+    return step["a"] in FROM_POISONED and "throws" in (step.get("cls") or "")
+
+
+def paths_containing(ag, K, pred, cap):
+    """All paths of K steps from the initial state that contain a step satisfying `pred` (path selection:
+    these steps need a poisoned source first, so short exhaustive enumeration reaches them rarely)."""
+    out = []
+
+    def rec(s, path, hit):
+        if len(out) >= cap:
+            return
+        if len(path) == K:
+            if hit:
+                out.append(list(path))
+            return
+        for step, d in ag.edges.get(s, []):
+            path.append(step)
+            rec(d, path, hit or pred(step))
+            path.pop()
+
+    for s in ag.init:
+        rec(s, [], False)
+    return out
+
+
+def gen_instance(chk, name, budget, walks, walk_len, seed, focus=None):
     cfg, dims, prefix = INSTANCES[name]
     ag, r = build_graph(os.path.join(SPEC, "ValueBox.tla"), os.path.join(SPEC, cfg), tag="c09-" + name)
     chk.add_model("ValueBox/" + cfg, r, "generation instance: %d abstract states, %d abstract transitions" % (len(ag.states), ag.nedges))
@@ -222,22 +282,30 @@ def gen_instance(chk, name, budget, walks, walk_len, seed):
     while K < 6 and adt.count_paths(ag, K + 1) <= budget:
         K += 1
     hs = adt.all_paths(ag, K, budget * 2) or []
-    cover = edge_cover_pref(ag, BASIC)
+    cover = edge_cover_pref(ag, BASIC, follow=throws_from_poisoned if focus else None)
     rw = adt.random_walks(ag, walks, walk_len, seed)
     info = {"abstract_states": len(ag.states), "abstract_transitions": ag.nedges, "all_histories_len": K if hs else 0,
             "all_histories": len(hs), "transition_cover": len(cover), "random_walks": len(rw), "walk_len": walk_len}
-    allh = close_with_teardown(ag, hs + cover + rw)
+    extra = []
+    if focus and focus > K:
+        extra = paths_containing(ag, focus, throws_from_poisoned, 60000)
+        info["histories_len_%d_with_throwing_copy_or_move" % focus] = len(extra)
+    allh = close_with_teardown(ag, hs + cover + rw + extra)
     return allh, info
 
 
 # ---------------------------------------------------------------------------
 # spec -> code
 # ---------------------------------------------------------------------------
-def _meta(variant, dims):
-    return {"variant": variant, "nt": dims[0], "nu": dims[1], "na": dims[2]}
+def _meta(variant, dims, events=False):
+    m = {"variant": variant, "nt": dims[0], "nu": dims[1], "na": dims[2]}
+    if events:
+        m["events"] = True          # the driver also reports the payload lifetime events of every step (for the trace spec)
+    return m
 
 
 CHUNK = 1200
+PAR = [3]                                  # driver processes at a time per payload variant
 WATCHDOG = ["--timeout-ms", "120000"]     # per forked batch; nothing in these histories can block, the machine may be busy
 
 
@@ -251,7 +319,7 @@ def run_chunks(exe, hs, tag, isolate, meta, env):
         return off, adt.run_driver(exe, part, "%s-%d" % (tag, off), isolate=isolate, meta=meta, env=env, timeout=1500, extra_args=WATCHDOG)
 
     t0 = time.time()
-    with ThreadPoolExecutor(max_workers=3) as ex:
+    with ThreadPoolExecutor(max_workers=PAR[0]) as ex:
         outs = list(ex.map(run, chunks))
     res, rcs, errs = {}, [], []
     for off, (r, rc, stderr, wall) in outs:
@@ -338,6 +406,7 @@ def replay_variants(chk, exe, raw_hs, name, variants, fast=True):
     import multiprocessing
     cfg, dims, prefix = INSTANCES[name]
     _JOBS.clear()
+    PAR[0] = max(3, 14 // len(variants))   # inherited by the forked workers
     for v in variants:
         _JOBS[v] = (exe, raw_hs, "c09-%s-%s" % (name, v), _meta(v, dims), fast, v in TRACKED)
     with multiprocessing.get_context("fork").Pool(len(variants)) as pool:
@@ -373,14 +442,14 @@ def report(chk, hs, mms, prefix, tag, meta):
 # ---------------------------------------------------------------------------
 # code -> spec
 # ---------------------------------------------------------------------------
-def sim_walks(chk, n, seed):
+def sim_walks(chk, n, seed, cfg="ValueBoxSim.cfg"):
     """Random walks of the specification over the larger universe, chosen by TLC's simulator."""
     d = os.path.join(tla.WORK, "cases", "c09-sim")
     os.makedirs(d, exist_ok=True)
     prefix = os.path.join(d, "walk-%d" % os.getpid())
     for f in glob.glob(prefix + "-*.json"):
         os.remove(f)
-    r = tla.run_tlc(os.path.join(SPEC, "ValueBoxSim.tla"), os.path.join(SPEC, "ValueBoxSim.cfg"), workers=1, simulate=n, depth=201,
+    r = tla.run_tlc(os.path.join(SPEC, "ValueBoxSim.tla"), os.path.join(SPEC, cfg), workers=1, simulate=n, depth=201,
                     seed=seed, env={"OUT": prefix}, timeout=900, tag="c09-sim")
     if r.violated or r.error:
         raise tla.InfraError("walk generation failed: %s %s\n%s" % (r.violated, r.error, r.out[-1500:]))
@@ -398,7 +467,7 @@ def sim_walks(chk, n, seed):
 
 def record(exe, walks, variant, dims, tag, fast=True):
     """Execute the walks on the real code; returns one event list ({a, arg, cls, obs}) per execution."""
-    res, rc, stderr, wall = adt.run_driver(exe, walks, tag + "-rec", isolate=1, meta=_meta(variant, dims),
+    res, rc, stderr, wall = adt.run_driver(exe, walks, tag + "-rec", isolate=1, meta=_meta(variant, dims, True),
                                            env=FAST_SAN if fast else None, timeout=900, extra_args=WATCHDOG)
     # a crash takes the child's observations with it: run the steps before the crash again to have them validated too
     crashed = {i: r for i, r in res.items() if "crash" in r or "timeout" in r}
@@ -406,7 +475,7 @@ def record(exe, walks, variant, dims, tag, fast=True):
     if crashed:
         idx = sorted(crashed)
         prefixes = [walks[i][:max(0, (crashed[i].get("crash") or crashed[i].get("timeout")).get("step", 0))] for i in idx]
-        res2, rc2, stderr2, wall2 = adt.run_driver(exe, prefixes, tag + "-prefix", isolate=1, meta=_meta(variant, dims),
+        res2, rc2, stderr2, wall2 = adt.run_driver(exe, prefixes, tag + "-prefix", isolate=1, meta=_meta(variant, dims, True),
                                                    env=FAST_SAN if fast else None, timeout=900, extra_args=WATCHDOG)
         for n, i in enumerate(idx):
             if res2.get(n) and "obs" in res2[n]:
@@ -456,7 +525,12 @@ def run(chk, replay=None):
     quick = chk.tier == "quick"
     chk.assumptions += [
         "TLC explores the bounded instances completely (3 Optional<T> | 2 Optional<T> + 1 Optional<U> | 2 Any slots, 2 payload values; "
-        "model checking with history: 2+1+1 slots, K = %d state-changing operations)" % (3 if quick else 4),
+        "model checking with history: 2+1+1 slots, K = 3 state-changing operations including throwing ones%s)"
+        % ("" if quick else ", K = 4 without throwing ones"),
+        "throwing payload operations: a payload object can be poisoned (taking its value throws whichever way the wrapper transfers "
+        "it); exercised with the lifetime-instrumented payload only, on 2 Optional<T> | 1 Optional<T> + 1 Optional<U> | 2 Any slots; "
+        "after a failed assignment into an engaged wrapper its value is unconstrained (old value or empty) but has_value() must equal "
+        "the number of live payload objects in its storage",
         "the driver maps model values injectively and monotonically to payloads of each type; slots are 64-byte aligned heap blocks of "
         "exactly sizeof(wrapper) bytes",
         "the state of a moved-from wrapper and the results of comparing / printing wrappers that are not both engaged are unconstrained",
@@ -472,9 +546,11 @@ def run(chk, replay=None):
 
     # 1. design level (runs beside the replay; its result is awaited before the verdict)
     def design():
-        adtcheck.model_check(chk, SPEC, "ValueBoxMC", "ValueBoxMC.cfg" if quick else "ValueBoxMC_thorough.cfg", workers=6,
-                             what="all histories of state-changing operations up to K: AgreesWithHistory, Conservation, "
-                                  "RefProtocolLegal, Independence, CopiesEqualSource")
+        what = ("all histories of state-changing operations up to K%s: AgreesWithHistory, Conservation, RefProtocolLegal, "
+                "Independence, CopiesEqualSource, NothingGivenByThrow")
+        adtcheck.model_check(chk, SPEC, "ValueBoxMC", "ValueBoxMC.cfg", workers=6, what=what % " = 3, with throwing payload operations")
+        if not quick:
+            adtcheck.model_check(chk, SPEC, "ValueBoxMC", "ValueBoxMC_thorough.cfg", workers=6, what=what % " = 4, no throwing operations")
         for cfg, expected in (("ValueBoxNeg_assign.cfg", "AgreesWithHistory"), ("ValueBoxNeg_movector.cfg", "RefProtocolLegalH")):
             r = tla.run_tlc(os.path.join(SPEC, "ValueBoxNeg.tla"), os.path.join(SPEC, cfg), workers=2, timeout=600)
             if expected not in str(r.violated):
@@ -482,24 +558,28 @@ def run(chk, replay=None):
             chk.cov["models"].append({"module": "ValueBoxNeg/" + cfg, "distinct_states": r.distinct, "states_generated": r.generated,
                                       "wall_s": round(r.wall, 1), "what": "negative control: faulty implementation rejected (%s)" % expected})
             chk.log("TLC negative control %s: %s violated as required" % (cfg, expected))
-        return sim_walks(chk, 6 if quick else 40, chk.seed)
+        return (sim_walks(chk, 6 if quick else 40, chk.seed),
+                sim_walks(chk, 4 if quick else 30, chk.seed + 1, cfg="ValueBoxSimThrow.cfg"))
 
     bg = ThreadPoolExecutor(max_workers=1)
     design_future = bg.submit(design)
 
     # 2./3. spec -> code
     exe = build.build(DRV, san=SAN)
-    plan = [("OptA", 9000 if quick else 300000, 400 if quick else 6000), ("OptB", 9000 if quick else 100000, 400 if quick else 12000),
-            ("Any", 9000 if quick else 200000, 300 if quick else 5000), ("Probe", 400, 50)]
+    plan = [("OptA", 9000 if quick else 300000, 400 if quick else 6000), ("OptB", 13000 if quick else 100000, 400 if quick else 12000),
+            ("Any", 9000 if quick else 200000, 300 if quick else 5000), ("Probe", 400, 50),
+            ("ThrowA", 25000 if quick else 700000, 600 if quick else 6000), ("ThrowB", 25000, 600 if quick else 8000),
+            ("ThrowAny", 25000 if quick else 25000, 400 if quick else 6000)]
     if not quick:
         plan.append(("Full", 3000, 12000))
     nd = 0
     for name, budget, walks in plan:
-        hs, info = gen_instance(chk, name, budget, walks, 25, chk.seed)
+        hs, info = gen_instance(chk, name, budget, walks, 25, chk.seed, focus=4 if name in THROWING else None)
         chk.count_actions(hs)
         chk.cov["generation_" + name] = info
-        replay_variants(chk, exe, hs, name, VARIANTS)
-        nd += adtcheck._nontrivial_distinct(hs, MUTATORS) * len(VARIANTS)
+        variants = ["tracked"] if name in THROWING else VARIANTS
+        replay_variants(chk, exe, hs, name, variants)
+        nd += adtcheck._nontrivial_distinct(hs, MUTATORS) * len(variants)
         if name in ("OptB", "Any"):
             chk.add_sample({"kind": "history", "instance": name, "steps": [[s["a"], s.get("arg"), s.get("cls")] for s in hs[len(hs) // 2]]})
         check_classes(chk, hs)
@@ -508,6 +588,11 @@ def run(chk, replay=None):
     missing = [c for c in REQUIRED_CLS if c not in chk._c09_classes]
     if missing:
         raise tla.InfraError("vacuity guard: argument classes never exercised: %s" % missing)
+    need = lambda c: MIN_THROW if c[0] in ("Emplace", "AssignValue", "ValueCtor", "MakeOptional", "AnyValueCtor", "AnyAssignValue") else MIN_THROW_FROM
+    few = [(c, chk._c09_classes.get(c, 0), need(c)) for c in REQUIRED_THROW if chk._c09_classes.get(c, 0) < need(c)]
+    if few:
+        raise tla.InfraError("vacuity guard: throwing steps exercised too rarely (class, count, required): %s" % few)
+    chk.cov["throwing_steps"] = {"%s(%s)" % c: chk._c09_classes[c] for c in REQUIRED_THROW}
 
     # getEnvVar<T> returns Optional<T>
     cases = funcheck.gen_cases(chk, SPEC, "ValueBoxEnv", "ValueBoxEnv.cfg", "c09-env", what="getEnvVar<T>: engaged exactly when set")
@@ -519,10 +604,11 @@ def run(chk, replay=None):
     chk.require_actions(["GetEnv"])
 
     # 4. code -> spec
-    walks = design_future.result()
+    walks, twalks = design_future.result()
     bg.shutdown()
     for variant in (["tracked", "string"] if quick else VARIANTS):
         record_and_validate(chk, exe, walks, variant)
+    record_and_validate(chk, exe, twalks, "tracked", tag="c09-trace-throwing")
     chk.add_sample({"kind": "recorded-walk-prefix", "actions": [[s["a"], s.get("arg")] for s in walks[0][:8]]})
     chk.cov["rule"] = ("histories = paths of TLC's complete state graphs of the bounded instances (all paths up to the budgeted length, one "
                        "path per transition, seeded random walks), each closed by Teardown; non-trivial = contains a state-changing "
@@ -532,10 +618,11 @@ def run(chk, replay=None):
 def check_classes(chk, hs):
     seen = getattr(chk, "_c09_classes", None)
     if seen is None:
-        seen = chk._c09_classes = set()
+        seen = chk._c09_classes = {}
     for h in hs:
         for st in h:
-            seen.add((st["a"], st.get("cls")))
+            k = (st["a"], st.get("cls"))
+            seen[k] = seen.get(k, 0) + 1
 
 
 def do_replay(chk, path):
